@@ -11,13 +11,16 @@ LEVEL = 'exploration'
 RULE = ('documents = class x container context (body, section body, list item, quote, table cell, footnote, title, font argument) '
         'x every sequence of <= n constructs allowed there (words, paragraph break, 4 sectioning forms, font command/declaration, '
         'nested emphasis, itemize/enumerate/description, quote, center, tabular, footnote, mbox, inline/display math, equation, '
-        'verbatim, \\verb, label+ref, figure+caption, dash/quote triggers) plus every chain of <= 4 nested containers with a '
+        'verbatim (also with \\endverbatim in its text), \\verb, label+ref, figure+caption, dash/quote triggers, box-in-formula-in-box, '
+        'book: \\chapter, \\chapter*) plus every chain of <= 4 nested containers with a '
         '2-sequence at the bottom; every text leaf is a unique marker word. Non-trivial: >= 2 constructs; distinct = distinct '
         'source; outcomes = distinct tree shapes (node-name skeletons)')
 ASSUMPTIONS = [
     'oracle: marker order in the generated source (regex on the source string) = marker order of the depth-first walk '
     '(attributes in declaration order, then children)',
     'charsub expectation: dashes/quotes substituted everywhere except verbatim, \\verb and mathematics',
+    'math containment: a word is in mathematics iff the nearest enclosing math-or-box construct in the source is a formula; '
+    'same rule on the tree over math/displaymath/equation nodes and mbox/textbf/textit/footnote nodes',
 ]
 
 MARK = re.compile(r'wq[a-p]+z')
@@ -81,6 +84,33 @@ def c_sectoc(m):
 @_c('section')
 def c_paragraph(m):
     return '\\paragraph{%s}' % m()
+
+
+@_c('chapter')
+def c_chapter(m):
+    return '\\chapter{%s}' % m()
+
+
+@_c('chapter')
+def c_chapterstar(m):
+    return '\\chapter*{%s}' % m()
+
+
+@_c('inline')
+def c_boxmathbox(m):
+    # a formula that contains a box, inside a box argument; then a plain formula
+    return "\\textbf{%s $%s \\mbox{%s} %s$ %s} $%s$ " % (m(), m(), m(), m(), m(), m())
+
+
+@_c('inline')
+def c_mathbox(m):
+    return '$%s \\mbox{%s $%s$ %s} %s$ ' % (m(), m(), m(), m(), m())
+
+
+@_c('verbatim')
+def c_verbatimend(m):
+    # the command-form terminator is ordinary text inside the environment form ('=' marks a raw dash pair for the oracle)
+    return '\\begin{verbatim}\n%s \\endverbatim =%s--%s\n\\end{verbatim}' % (m(), m(), m())
 
 
 @_c('block')
@@ -201,9 +231,9 @@ def c_mathtrig(m):
 # container contexts: name -> (template with one %s, allowed classes)
 INLINEISH = ('inline', 'math')
 CONTEXTS = {
-    'body': ('%%s', ('inline', 'break', 'section', 'block', 'table', 'footnote', 'math', 'display', 'verbatim', 'verb',
+    'body': ('%%s', ('inline', 'break', 'section', 'chapter', 'block', 'table', 'footnote', 'math', 'display', 'verbatim', 'verb',
                     'label', 'float')),
-    'secbody': ('\\section{%(m)s}%%s', ('inline', 'break', 'section', 'block', 'table', 'footnote', 'math', 'display',
+    'secbody': ('\\section{%(m)s}%%s', ('inline', 'break', 'section', 'chapter', 'block', 'table', 'footnote', 'math', 'display',
                                         'verbatim', 'verb', 'label', 'float')),
     'item': ('\\begin{itemize}\\item %(m)s\\item %%s\\end{itemize}', ('inline', 'break', 'block', 'table', 'footnote',
                                                                     'math', 'display', 'verbatim', 'verb', 'label')),
@@ -358,6 +388,102 @@ def structure_problems(doc):
 
 
 DASH, LQ, RQ = chr(8211), chr(8220), chr(8221)
+BOXES = ('mbox', 'textbf', 'textit', 'footnote')
+MATHNODES = ('math', 'displaymath', 'equation')
+
+
+def math_map_source(src):
+    """marker -> is it written in math mode?  Stack machine over the restricted syntax of the generated sources."""
+    out = {}
+    stack = [['T', 'doc']]
+    i, n = 0, len(src)
+    while i < n:
+        c = src[i]
+        mm = MARK.match(src, i)
+        if mm:
+            out[mm.group(0)] = stack[-1][0] == 'M'
+            i = mm.end()
+            continue
+        if src.startswith('\\verb|', i):
+            j = src.index('|', i + 6)
+            for w in MARK.findall(src[i:j]):
+                out[w] = False
+            i = j + 1
+            continue
+        if src.startswith('\\begin{verbatim}', i):
+            j = src.index('\\end{verbatim}', i)
+            for w in MARK.findall(src[i:j]):
+                out[w] = False
+            i = j + len('\\end{verbatim}')
+            continue
+        if src.startswith('\\[', i) or src.startswith('\\begin{equation}', i):
+            stack.append(['M', 'env'])
+            i += 2 if src.startswith('\\[', i) else len('\\begin{equation}')
+            continue
+        if src.startswith('\\]', i) or src.startswith('\\end{equation}', i):
+            stack.pop()
+            i += 2 if src.startswith('\\]', i) else len('\\end{equation}')
+            continue
+        if c == '\\':
+            m2 = re.compile(r'\\([a-zA-Z]+)\*?').match(src, i)
+            if m2:
+                i = m2.end()
+                if i < n and src[i] == '{' and m2.group(1) in BOXES:
+                    stack.append(['T', '{'])
+                    i += 1
+                continue
+            i += 2
+            continue
+        if c == '{':
+            stack.append([stack[-1][0], '{'])
+        elif c == '}':
+            if len(stack) > 1:
+                stack.pop()
+        elif c == '$':
+            if stack[-1][1] == '$':
+                stack.pop()
+            else:
+                stack.append(['M', '$'])
+        i += 1
+    return out
+
+
+def math_map_tree(doc):
+    """marker -> does the text node holding it have a mathematics node as nearest ancestor among math nodes and boxes?"""
+    from plasTeX.DOM import Node
+    pieces = []         # (text, mode) in depth-first order; text may come letter by letter
+
+    def visit(n, mode, depth):
+        if depth > 200:
+            return
+        if n.nodeType == Node.TEXT_NODE:
+            pieces.append((str(n), mode))
+            return
+        name = n.nodeName
+        if name in MATHNODES:
+            mode = True
+        elif name in BOXES:
+            mode = False
+        attrs = getattr(n, 'attributes', None)
+        if attrs:
+            for k, v in attrs.items():
+                if k != 'self' and hasattr(v, 'nodeType'):
+                    visit(v, mode, depth + 1)
+        for c in n.childNodes:
+            visit(c, mode, depth + 1)
+    visit(doc, False, 0)
+    out = {}
+    text = ''.join(t for t, m in pieces)
+    starts, pos = [], 0
+    for t, m in pieces:
+        starts.append((pos, m))
+        pos += len(t)
+    import bisect
+    offs = [a for a, m in starts]
+    for mm in MARK.finditer(text):
+        j = bisect.bisect_right(offs, mm.start()) - 1
+        out.setdefault(mm.group(0), starts[j][1])
+    return out
 
 
 def judge(src, seq):
@@ -382,9 +508,16 @@ def judge(src, seq):
         lost = [w for w in want if w not in got]
         dup = sorted(set(w for w in got if got.count(w) > 1))
         problems.append('marker order differs: lost=%s duplicated=%s got=%s' % (lost, dup, got if not lost and not dup else ''))
+    # mathematics holds exactly the words written in math mode
+    if not problems:
+        ms, mt = math_map_source(src), math_map_tree(doc)
+        wrong = [w for w in want if ms.get(w) != mt.get(w)]
+        if wrong:
+            problems.append('words %s are %s mathematics in the tree but %s in the source' % (
+                wrong[:4], 'inside' if mt.get(wrong[0]) else 'outside', 'inside' if ms.get(wrong[0]) else 'outside'))
     # typographic substitutions
     sub_problems = []
-    for mm in re.finditer(r'(\\verb\||\$)?(wq[a-p]+z)--(wq[a-p]+z)', src):
+    for mm in re.finditer(r'(\\verb\||\$|=)?(wq[a-p]+z)--(wq[a-p]+z)', src):
         raw = bool(mm.group(1))
         a, b = mm.group(2), mm.group(3)
         i = text.find(a)
@@ -447,6 +580,10 @@ def cases_for(block):
     if kind == 'seq':
         _, docclass, ctx, first, n, reduced = block
         names = allowed(ctx)
+        if docclass != 'book':
+            names = [x for x in names if CONSTRUCTS[x][0] != 'chapter']
+            if CONSTRUCTS[first][0] == 'chapter':
+                return
         if reduced:
             names = [x for x in names if x in SMALL]
         rest_lens = range(0, n)
@@ -457,7 +594,7 @@ def cases_for(block):
     else:
         _, docclass, chain, names = block
         inner = allowed(chain[-1])
-        inner = [x for x in inner if x in names]
+        inner = [x for x in inner if x in names and (docclass == 'book' or CONSTRUCTS[x][0] != 'chapter')]
         if any(c in ('footnote', 'fontarg', 'title') for c in chain):
             # verbatim material cannot appear anywhere inside a macro argument
             inner = [x for x in inner if CONSTRUCTS[x][0] not in ('verb', 'verbatim')]
